@@ -33,6 +33,8 @@ def stepLine (_ : Unit) (line : String) : Unit × List String :=
     let st := init input (parseSched sch (e == "1"))
     let (pairs, st') := runAll (input.length + 1) st []
     ((), [s!"sb reads={st'.reads} runes={showPairs pairs}"])
+  | ["tokvs", _, _, _, _] => ((), [])
+  | ["tok", _, _, _] => ((), [])   -- judge only: the implementation against itself under another reader
   | [] => ((), [])
   | _ => ((), ["bad-op"])
 
@@ -48,6 +50,14 @@ def judgeLine (j : J) (op : String) (outs : List String) : J × List String :=
     let want := showPairs (decodeAll input)
     if (rs.drop 6).toString == want then (j, [])
     else (j, [s!"VIOLATION case={j.caseId} sig=scanbuf:runes-differ-from-direct-decoding op=[{op.take 120}] want=[{want.take 160}] got=[{((rs.drop 6).toString).take 160}]"])
+  | ["tokvs", _, _, _, _], "same" :: _ => (j, [])
+  | ["tokvs", _, _, _, _], "differs" :: _ =>
+    (j, [s!"VIOLATION case={j.caseId} sig=scanbuf:tokens-change-when-blanks-are-stretched-across-a-buffer-end op=[{op.take 60}] {(outs.headD "").take 260}"])
+  | ["tokvs", _, _, _, _], "panic" :: _ => (j, [s!"VIOLATION case={j.caseId} sig=scanbuf:panic op=[{op.take 120}]"])
+  | ["tok", _, _, _], "same" :: _ => (j, [])
+  | ["tok", _, _, _], "differs" :: _ =>
+    (j, [s!"VIOLATION case={j.caseId} sig=scanbuf:tokens-depend-on-how-the-reader-cuts-the-input op=[{op.take 100}] {(outs.headD "").take 260}"])
+  | ["tok", _, _, _], "panic" :: _ => (j, [s!"VIOLATION case={j.caseId} sig=scanbuf:panic op=[{op.take 120}]"])
   | ["sb", _, _, _], "sb" :: "panic" :: _ => (j, [s!"VIOLATION case={j.caseId} sig=scanbuf:panic op=[{op.take 120}]"])
   | ["sb", _, _, _], "hang" :: _ => (j, [s!"VIOLATION case={j.caseId} sig=scanbuf:hang op=[{op.take 120}]"])
   | [], _ => (j, [])
